@@ -50,6 +50,36 @@ MANIFEST = {
 }
 
 
+def r10_stored_representation(ctx) -> None:
+  # (a) ParameterValueConverter.from_proto hands the wire value on unchanged
+  pv = ctx.index.need_class('vizier._src.pyvizier.oss.proto_converters.ParameterValueConverter')
+  fp = pv.methods['from_proto']
+  conv = [c for c in flow.calls_in(fp.node) if dotted(c.func) in ('int', 'round', 'float', 'bool', 'str')
+          or (isinstance(c.func, ast.Attribute) and c.func.attr in ('is_integer', 'astype'))]
+  ctx.check(not conv, 'R10', 'ParameterValueConverter.from_proto returns the stored value as stored', fp.node, 'no numeric re-typing of the wire value',
+            f'`{unparse(conv[0], 50) if conv else ""}` re-types the stored value: a DOUBLE (or float-typed DISCRETE) parameter whose value happens to be a whole '
+            'number is presented as an int instead of a float', construct='from_proto:retyped', func=fp.qualname)
+  # (b) ParameterConfigConverter.from_proto: external_type only from proto.external_type
+  pc = ctx.index.need_class('vizier._src.pyvizier.oss.proto_converters.ParameterConfigConverter')
+  fc = pc.methods['from_proto']
+  par = [p_ for p_ in fc.params if p_ not in ('cls', 'self')][0]
+  bad = None
+  for x in ast.walk(fc.node):
+    if isinstance(x, ast.Assign) and any(isinstance(t, ast.Name) and t.id == 'external_type' for t in x.targets):
+      v = x.value
+      ok_ = (isinstance(v, ast.Constant) and v.value is None) or any(
+          isinstance(y, ast.Attribute) and unparse(y, 0) == f'{par}.external_type' for y in ast.walk(v))
+      if not ok_:
+        bad = bad or x
+  kw = [k for c in flow.calls_in(fc.node) for k in c.keywords if k.arg == 'external_type']
+  if not kw:
+    raise AnalysisError('ParameterConfigConverter.from_proto: external_type is not passed to the config')
+  ctx.check(bad is None, 'R10', 'ParameterConfigConverter.from_proto: external type read from the spec field', fc.node,
+            f'external_type derives from {par}.external_type (or is None)',
+            f'`{unparse(bad, 70) if bad is not None else ""}` infers an external type that the spec does not declare: a categorical parameter whose categories '
+            "happen to be 'True'/'False' is presented as bool instead of str", construct='from_proto:inferred-external-type', func=fc.qualname)
+
+
 def r8_external_type_transmitted(ctx) -> None:
   ci = ctx.index.need_class('vizier._src.pyvizier.oss.proto_converters.ParameterConfigConverter')
   fi = ci.methods.get('to_proto')
@@ -85,8 +115,11 @@ def run(ctx) -> None:
   ctx.rule('R4', 'children emitted only under an emitted parent with a matching value; cast by external type', 3)
   ctx.rule('R5', 'indexed parameters grouped by the parser and sorted by integer index; parser and builder agree', 3)
   ctx.rule('R6', 'clients.Trial.parameters uses StudyConfig.trial_parameters', 1)
+  ctx.rule('R10', 'the stored value is read back as stored (no int() of integral floats); the external type of a loaded config comes '
+           'from the spec field only (never inferred from the feasible values); the indexed-name parser accepts every base name', 2)
   ctx.rule('R8', 'a declared external type is always written to the study spec (guarded by `is not None` only)', 1)
   r8_external_type_transmitted(ctx)
+  r10_stored_representation(ctx)
   ctx.import_rules('C16', {'R8'}, 'R9', 'every subspace owns its child config objects (a child shared between parent values is active for one of them only)')
   ctx.import_rules('C09', {'R8', 'R5'}, 'R7', 'the study config the client casts with is the one that was stored: conditional children survive the wire one by one')
   trial_mod = ctx.index.need_module('vizier._src.pyvizier.shared.trial')
@@ -388,9 +421,22 @@ def run(ctx) -> None:
       elif str(op) == 'AT':
         pass
     skeleton = ''.join(lits)
+    # the base-name group must accept every name the builder can produce: a repetition of ANY / of a negated class
+    name_ok = False
+    for g_ in groups:
+      try:
+        gname = [k for k, v in sre.parse(rx).state.groupdict.items() if v == g_[0]]
+      except Exception:
+        gname = []
+      if 'name' in gname or (not gname and g_ is groups[0]):
+        items = list(g_[3])
+        if len(items) == 1 and str(items[0][0]) in ('MAX_REPEAT', 'MIN_REPEAT'):
+          inner = list(items[0][1][2])
+          if len(inner) == 1 and (str(inner[0][0]) == 'ANY' or (str(inner[0][0]) == 'IN' and str(inner[0][1][0][0]) == 'NEGATE')):
+            name_ok = True
     int_group = r'\d+' in rx
-    ok5 = skeleton == fm and int_group and 'int(' in unparse(sel_parse.node, 0)
-    detail = f'regex skeleton {skeleton!r} vs format {fm!r}'
+    ok5 = skeleton == fm and int_group and 'int(' in unparse(sel_parse.node, 0) and name_ok
+    detail = f'regex skeleton {skeleton!r} vs format {fm!r}' + ('' if name_ok else '; the base-name group of the regex does not accept every name')
   ctx.check(ok5, 'R5', 'name parser and name builder describe the same shape', sel_parse.node, detail,
             f'{detail}: names produced by the builder are not recognised by the parser (or the index is not parsed as an integer)',
             construct='shape', func=sel_parse.qualname)
